@@ -212,6 +212,31 @@ def handle : P String := do
       let loc := fun (us vs : List (CVec Rat)) => allSum ((List.range ps.length).map fun r =>
         tripleDot (cfreqs (ps.getD r default)).flat (us.getD r default).flat (vs.getD r default).flat)
       pure s!"A {showRat (loc xs ys)} {showRat (loc xs xs)} {showRat (qsqrt (loc xs xs))}"
+  | "ticket" =>
+    -- asynchronous ticket on a gate without neighbours: sync_0_async / sync_1_async are the identity, apply_async of
+    -- the matrix 2*I doubles the vector (specified behaviour; see FINDINGS_C13.md F1 for what the code does)
+    let kind ← nat; let v ← ratList
+    let ps : List Patch := [{ n := v.length, nbrs := [] }]
+    let r := if kind == 0 then sync0 ps [[]] [v] else if kind == 1 then sync1 ps [[]] [v]
+      else gapply ps [[]] [(List.range v.length).map fun i => [(i, (2 : Rat))]] [v]
+    pure (showVecs "V" r)
+  | "rich" =>
+    let jac ← nat; let k ← nat; let omega ← rat; let (_, ps) ← decompP
+    let ords ← many ps.length natList
+    let mats ← many ps.length matP
+    let bs ← vecsP ps.length
+    let xs ← vecsP ps.length
+    if !exchangeOk ps then pure "DEADLOCK" else
+    pure (showVecs "V" (richIter (jac != 0) omega ps ords mats bs k xs))
+  | "cg" =>
+    let k ← nat; let (_, ps) ← decompP
+    let ords ← many ps.length natList
+    let mats ← many ps.length matP
+    let bs ← vecsP ps.length
+    let xs ← vecsP ps.length
+    if !exchangeOk ps then pure "DEADLOCK" else
+    let st := cgIter ps ords mats k (cgInit ps ords mats bs xs)
+    pure s!"{showVecs "V" st.x} R {showRat st.rr}"
   | "csync0" | "csync1" =>
     let kn ← tok
     match kindTree kn with
